@@ -488,7 +488,7 @@ def energy_cases(draw):
     return {'prob': draw(_prob_any), 'xs': draw(_xs), 'z': draw(_cutz), 'resolve': draw(_bool)}
 
 
-def barnett_lothe_K(S):
+def barnett_lothe_K(S, C4=None):
     """K = -(1/pi) int_0^pi [ (m n)(n n)^-1 (n m) - (m m) ](theta) d theta with (a b)_jk = a_i C_ijkl b_l and the pair (m, n)
     rotated by theta about xi (Barnett & Lothe 1973; Bacon, Barnett & Scattergood 1979 eq. 3.139 ff).  The integrand is
     pi-periodic and analytic: the midpoint rule converges like exp(-2 N |Im theta_0|), theta_0 = arctan(-1/p) the nearest
@@ -498,9 +498,10 @@ def barnett_lothe_K(S):
     th = (np.arange(N) + 0.5) * math.pi / N
     mt = np.cos(th)[:, None] * S.m + np.sin(th)[:, None] * S.n
     nt = -np.sin(th)[:, None] * S.m + np.cos(th)[:, None] * S.n
-    mm = np.einsum('ni,ijkl,nl->njk', mt, S.C4s, mt)
-    mn = np.einsum('ni,ijkl,nl->njk', mt, S.C4s, nt)
-    nn = np.einsum('ni,ijkl,nl->njk', nt, S.C4s, nt)
+    C4 = S.C4s if C4 is None else C4
+    mm = np.einsum('ni,ijkl,nl->njk', mt, C4, mt)
+    mn = np.einsum('ni,ijkl,nl->njk', mt, C4, nt)
+    nn = np.einsum('ni,ijkl,nl->njk', nt, C4, nt)
     N3 = mn @ np.linalg.inv(nn) @ np.transpose(mn, (0, 2, 1)) - mm
     return -N3.mean(axis=0), (N * im >= 19.9)
 
@@ -510,7 +511,7 @@ def oracle_energy(case):
     S, sol, labels, judge = begin(prob)
     if not judge:
         return labels
-    check_header(sol, S, prob)
+    Cg = check_header(sol, S, prob)
     K = np.asarray(sol.K_tensor)
     require(K.shape == (3, 3) and K.dtype.kind == 'f' and bool(np.all(np.isfinite(K))), lambda: 'K_tensor is not a real finite 3x3 array: %r' % (K,))
     kmax = float(np.abs(K).max())
@@ -518,7 +519,15 @@ def oracle_energy(case):
     w = np.linalg.eigvalsh((K + K.T) / 2)
     require(w[0] > 0, lambda: 'K_tensor not positive definite: eigenvalues %r' % (w,))
     # independent value of the tensor: angular integral over the medium (no eigenvectors, valid for degenerate roots too)
-    Kref, converged = barnett_lothe_K(S)
+    # A medium with entries between rounding noise and 1e-7 of the largest (crystal rotated by 1e-6 degrees, ...) is solved
+    # with those entries zeroed or not (ElasticConstants.transform, tol = 1e-8): up to 1e-8 max|C| per entry, which K
+    # amplifies by the anisotropy (unchanged tree: cubic, Zener ratio 24, rotated by 1e-6 degrees, line along [111]:
+    # 4.4e-8 against my medium, 2.6e-15 against the reported one; replay C12-energy-4 of the fix round).  The integral is
+    # then taken over the medium the solution reports, which check_header has tied to mine within TOL_C.
+    floor = (not S.iso) and (_floor_band(S.C6) or _floor_band(S.C6s))
+    Kref, converged = barnett_lothe_K(S, el.voigt_to_tensor(Cg) if floor else None)
+    if floor:
+        labels.add('BL_reported_medium')
     if converged:
         close(np.abs(K - Kref).max(), (TOL_K + 1e-10 * S.amp) * float(np.abs(Kref).max()), 'K_BL',
               lambda: 'K_tensor\n%r\nagainst the Barnett-Lothe integral of the medium\n%r' % (K, Kref))
